@@ -282,6 +282,11 @@ def run_case(c, verbose=False):
         else:
             cls = None
         refused = rc != 0 and (devcls == "malformed" or "not clean" in (err + out))
+        # A command that stops on the stale atlas.sum I planted never starts using the dev database: that
+        # is not an acceptance (the "untouched" demands below still apply).
+        if not refused and rc != 0 and c["sum"] == "stale" and oc == "checksum-error":
+            refused = True
+            ctx.count("nonempty-dev:stopped-before-dev(checksum)")
         if spec.get("hcl_only"):
             ctx.count("hcl-only-on-nonempty-dev:" + ("exit0" if rc == 0 else "exit!=0"))
         elif not refused:
